@@ -21,6 +21,14 @@ class Unsupported(Exception):
     """A construct outside the engine's reach: the run is *undecided*, never a violation."""
 
 
+class ModelledError(Exception):
+    """marker mixin: an exception a shim raises on purpose because the real library would raise it"""
+
+
+class ModelledAttributeError(AttributeError, ModelledError):
+    pass
+
+
 class Obligation:
     __slots__ = ('name', 'hyps', 'goal', 'kind', 'path', 'note', 'uid', 'unit')
 
@@ -492,6 +500,7 @@ class SArr:
         self.view_of = view_of
         self.incr = incr            # known strictly increasing (1-d int)
         self.sumfun = None          # optional ghost prefix-sum function (see npshim.sum)
+        self.off = None             # for slice views: per-dim offsets into the base array (quantify in base coordinates)
 
     # -- basic attributes
     @property
@@ -639,7 +648,9 @@ class SArr:
             a, b = coerce2(ea(*ix), oe)
             return f(b, a) if swap else f(a, b)
         k = kind or ('f' if (self.kind == 'f' or oe.sort() == R) else 'i' if (self.kind == 'i' or oe.sort() == I) else 'b')
-        return SArr(self.shape_e, elem, k, nan=self.nan if nanprop else None)
+        r = SArr(self.shape_e, elem, k, nan=self.nan if nanprop else None)
+        r.off = self.off
+        return r
 
     def __add__(self, o): return self._ew(o, lambda a, b: a + b)
     def __radd__(self, o): return self._ew(o, lambda a, b: a + b, swap=True)
@@ -674,7 +685,10 @@ class SArr:
         else:
             c.oblige('division-by-nonzero', to_real(lift(o)) != 0, 'safety')
 
-    def __neg__(self): return SArr(self.shape_e, lambda *ix: -self.elem(*ix), self.kind, nan=self.nan)
+    def __neg__(self):
+        r = SArr(self.shape_e, lambda *ix: -self.elem(*ix), self.kind, nan=self.nan)
+        r.off = self.off
+        return r
 
     def __pow__(self, o):
         c = concrete(o)
@@ -720,7 +734,9 @@ class SArr:
     def __invert__(self):
         if self.kind != 'b':
             raise Unsupported('~ on non-bool array')
-        return SArr(self.shape_e, lambda *ix: z3.Not(self.elem(*ix)), 'b')
+        r = SArr(self.shape_e, lambda *ix: z3.Not(self.elem(*ix)), 'b')
+        r.off = self.off
+        return r
 
     def __and__(self, o): return self._ew(o, lambda a, b: z3.And(_asb(a), _asb(b)), 'b')
     def __or__(self, o): return self._ew(o, lambda a, b: z3.Or(_asb(a), _asb(b)), 'b')
@@ -782,11 +798,15 @@ class SArr:
                     if clo is not None and clo < 0:
                         lo = n + lo
                     elif clo is None:
-                        lo = z3.If(lo < 0, n + lo, lo)
+                        lo = _name(c, lo)
+                        if not (c is not None and c.entails(lo >= 0)):
+                            lo = z3.If(lo < 0, n + lo, lo)
                     if chi is not None and chi < 0:
                         hi = n + hi
                     elif chi is None:
-                        hi = z3.If(hi < 0, n + hi, hi)
+                        hi = _name(c, hi)
+                        if not (c is not None and c.entails(hi >= 0)):
+                            hi = z3.If(hi < 0, n + hi, hi)
                     lo, hi = z3.simplify(lo), z3.simplify(hi)
                     if c is not None:
                         # numpy would silently clip: a clipped or empty-by-inversion slice hides defects
@@ -803,7 +823,10 @@ class SArr:
                     src += 1
                 continue
             if isinstance(k, (list, tuple)):
-                raise Unsupported('python-sequence fancy index')
+                from . import npshim as _ns
+                plan.append(('fancy', _ns.array(list(k))))
+                src += 1
+                continue
             ke = lift(k)
             if ke.sort() != I:
                 raise Unsupported('non-integer index')
@@ -812,6 +835,10 @@ class SArr:
             ck = concrete(ke)
             if ck is not None:
                 plan.append(('int', z3.simplify(n + ke) if ck < 0 else ke))
+            elif c is not None and c.entails(ke >= 0):
+                plan.append(('int', ke))
+            elif c is not None and c.entails(ke < 0):
+                plan.append(('int', z3.simplify(ke + n)))
             else:
                 plan.append(('int', z3.If(ke < 0, ke + n, ke)))
             src += 1
@@ -849,11 +876,19 @@ class SArr:
             if basenan is not None and not Ctx.spec:
                 # scalar read of a possibly-NaN element
                 return SNan(base(*srcix(())), basenan(*srcix(())))
-            return wrap(base(*srcix(())))
+            val = base(*srcix(()))
+            if not Ctx.spec and Ctx.cur is not None and _size_exceeds(val, 12):
+                v = C().fresh('rd', val.sort())
+                C().assume(v == val)
+                return wrap(v)
+            return wrap(val)
         r = SArr(tuple(shape), lambda *ix: base(*srcix(ix)), self.kind,
                  nan=(None if basenan is None else (lambda *ix: basenan(*srcix(ix)))), buf=self.buf, view_of=self)
         if self.incr and len(plan) == 1 and plan[0][0] == 'slice':
             r.incr = True
+        offs = [p[1] for p in plan if p[0] in ('slice', 'new')] if all(p[0] != 'new' for p in plan) else None
+        if offs is not None and any(concrete(o) != 0 for o in offs):
+            r.off = offs
         return r
 
     def _adv_get(self, plan):
@@ -1109,6 +1144,31 @@ class SArr:
 
     def tolist(self):
         raise Unsupported('tolist of symbolic array')
+
+
+def _size_exceeds(e, limit):
+    n = 0
+    stack = [e]
+    seen = set()
+    while stack:
+        t = stack.pop()
+        if t.get_id() in seen:
+            continue
+        seen.add(t.get_id())
+        n += 1
+        if n > limit:
+            return True
+        stack.extend(t.children())
+    return False
+
+
+def _name(c, e):
+    """replace a non-trivial integer term by a fresh constant defined equal to it (keeps closures small)"""
+    if c is None or Ctx.spec or not _size_exceeds(e, 6):
+        return e
+    v = c.fresh('nm', e.sort())
+    c.assume(v == e)
+    return v
 
 
 def _plan_to_key(p):
